@@ -103,17 +103,20 @@ def placeBlock (g : G) (lmax : Nat) (spacing : Rat) (bw : Array Rat) (roots : Ar
 
 def placeBlockFuel (g : G) : Nat := (g.nodes.size + 2) * (g.nodes.size + 2)
 
+/-- one iteration of the block-building loops: `setColor(k)`, then `blockwidth[roots[k]] = max(…, w)` -/
+def scStep (g : G) (acc : SCSt × Array Rat) (k : Nat) : M (SCSt × Array Rat) := do
+  let (s', _, w) ← setColor g (g.layers.size + 2) acc.1 k
+  let r := s'.roots.getD k k
+  pure (s', acc.2.setIfInBounds r (maxRat (acc.2.getD r 0) w))
+
+/-- the order in which the nested loops `for layer := range reversed(g.Layers) { for k := range layer.Nodes` visit the nodes -/
+def scOrder (g : G) : List Nat := g.layers.toList.reverse.flatMap (·.nodes)
+
 /-- block building: `setColor` for every node, bottom layer first; returns (blockwidth, roots) -/
 def scBlocks (g : G) : M (Array Rat × Array Nat) := do
   let n := g.nodes.size
-  let mut s : SCSt := { colors := (List.range n).toArray, roots := (List.range n).toArray, priority := [] }
-  let mut bw : Array Rat := Array.replicate n 0
-  for layer in g.layers.toList.reverse do
-    for k in layer.nodes do
-      let (s', _, w) ← setColor g (g.layers.size + 2) s k
-      s := s'
-      let r := s.roots.getD k k
-      bw := bw.setIfInBounds r (maxRat (bw.getD r 0) w)
+  let s0 : SCSt := { colors := (List.range n).toArray, roots := (List.range n).toArray, priority := [] }
+  let (s, bw) ← (scOrder g).foldlM (scStep g) (s0, Array.replicate n 0)
   pure (bw, s.roots)
 
 /-- initial coordinates: left to right, one block width per node -/
